@@ -21,7 +21,7 @@ the model is shown to suffice on every `Graph` value (`scc_never_diverges`).  A 
 recursive Rust functions on a very long path is outside the model (release build, 8 MiB stack: a one-way chain
 of 36 091 vertices passes, one of 55 000 aborts the process).
 
-Since /repo 1dee70f the two searches keep their pending vertices in an explicit frame list instead of
+Since /repo 323fefd the two searches keep their pending vertices in an explicit frame list instead of
 recursing (the recursion overflowed the call stack on deep networks: finding `scc/stack-overflow`).  The
 model of that code is `dfsIter` / `allSccIter`; it is proved equal to the recursive model on EVERY `Graph`
 value (`code_model_eq`), so each theorem below holds of both, and `scc_correct_code` restates the main
@@ -180,7 +180,7 @@ theorem scc_correct_every_digraph (n : Nat) (es : List (Nat × Nat)) (h : ∀ p 
   obtain ⟨cs, hcs⟩ := scc_total _ (ofEdges_wfb n es h)
   exact ⟨cs, hcs, scc_correct _ (ofEdges_wfb n es h) cs hcs⟩
 
-/-! ### the code as it is: frame-list searches (/repo 1dee70f) -/
+/-! ### the code as it is: frame-list searches (/repo 323fefd) -/
 
 /-- the model of the current code (explicit frames, a loop) and the recursive model the proofs are carried out
 on return the same thing on every `Graph` value — results, `EdgeNotFound`, and never `diverges` -/
